@@ -244,6 +244,9 @@ func runHistory(o *hx.Out, hid int, ops []rx.Op) {
 	if frag {
 		cat = "hist.reuses-freed-sectors"
 	}
+	if len(points) == 0 {
+		return // no accepted write in this history: nothing to interrupt
+	}
 	o.Case(cat, nw >= 2, "crash "+strings.Join(strs, ";")+" # "+strings.Join(points, " "), "crash "+strings.Join(results, " "))
 }
 
